@@ -484,3 +484,107 @@ async fn drive_crai_records(src: PollRead) -> Vec<String> {
         }
     }
 }
+
+// ------------------------------------------------------------------------------------------------
+// the Stream-returning APIs (`records()`, `record_bufs()`, `lines()`): same elements as the call-by-call drivers
+// minus the V: elements (a stream borrows the reader, positions cannot be asked in between)
+
+/// (kind, variant) pairs whose async reader also has a `Stream` API that is not already what `transcript` drives.
+pub fn stream_variants(kind: Kind) -> &'static [Variant] {
+    match kind {
+        Kind::Bam | Kind::BamRaw | Kind::Sam | Kind::SamGz | Kind::Vcf | Kind::VcfGz => &[Variant::Primary, Variant::Eager],
+        Kind::Bcf | Kind::BcfRaw | Kind::Gff => &[Variant::Primary],
+        _ => &[],
+    }
+}
+
+macro_rules! drain {
+    ($t:expr, $stream:expr, $render:expr) => {{
+        let mut st = $stream;
+        loop {
+            match st.try_next().await {
+                Ok(Some(rec)) => $t.push(format!("R:{}", $render(&rec))),
+                Ok(None) => break Ok(()),
+                Err(e) => break Err(e),
+            }
+        }
+    }};
+}
+
+pub async fn transcript_stream(kind: Kind, variant: Variant, src: PollRead, workers: usize) -> Vec<String> {
+    let mut t = T::new();
+    let eager = matches!(variant, Variant::Eager);
+    let res: io::Result<()> = match kind {
+        Kind::Bam | Kind::BamRaw => {
+            async fn go<R: AsyncRead + Unpin>(t: &mut T, mut r: bam::r#async::io::Reader<R>, eager: bool) -> io::Result<()> {
+                let header = r.read_header().await?;
+                t.push(format!("H:{}", render::sam_header(&header)));
+                if eager {
+                    drain!(t, r.record_bufs(&header), |rec| render::alignment_record(&header, rec))
+                } else {
+                    drain!(t, r.records(), |rec| render::alignment_record(&header, rec))
+                }
+            }
+            if kind == Kind::Bam { go(&mut t, bam::r#async::io::Reader::from(bgzf_reader(src, workers)), eager).await } else { go(&mut t, bam::r#async::io::Reader::from(src), eager).await }
+        }
+        Kind::Bcf | Kind::BcfRaw => {
+            async fn go<R: AsyncRead + Unpin>(t: &mut T, mut r: bcf::r#async::io::Reader<R>) -> io::Result<()> {
+                let header = r.read_header().await?;
+                t.push(format!("H:{}", render::vcf_header(&header)));
+                drain!(t, r.records(), |rec| render::variant_record(&header, rec))
+            }
+            if kind == Kind::Bcf { go(&mut t, bcf::r#async::io::Reader::from(bgzf_reader(src, workers))).await } else { go(&mut t, bcf::r#async::io::Reader::from(src)).await }
+        }
+        Kind::Sam | Kind::SamGz => {
+            async fn go<R: AsyncBufRead + Unpin>(t: &mut T, mut r: sam::r#async::io::Reader<R>, eager: bool) -> io::Result<()> {
+                let header = r.read_header().await?;
+                t.push(format!("H:{}", render::sam_header(&header)));
+                if eager {
+                    drain!(t, r.record_bufs(&header), |rec| render::alignment_record(&header, rec))
+                } else {
+                    drain!(t, r.records(), |rec| render::alignment_record(&header, rec))
+                }
+            }
+            if kind == Kind::SamGz {
+                go(&mut t, sam::r#async::io::Reader::new(bgzf_reader(src, workers)), eager).await
+            } else {
+                go(&mut t, sam::r#async::io::Reader::new(tokio::io::BufReader::with_capacity(BUF_CAP, src)), eager).await
+            }
+        }
+        Kind::Vcf | Kind::VcfGz => {
+            async fn go<R: AsyncBufRead + Unpin>(t: &mut T, mut r: vcf::r#async::io::Reader<R>, eager: bool) -> io::Result<()> {
+                let header = r.read_header().await?;
+                t.push(format!("H:{}", render::vcf_header(&header)));
+                if eager {
+                    drain!(t, r.record_bufs(&header), |rec| render::variant_record(&header, rec))
+                } else {
+                    drain!(t, r.records(), |rec| render::variant_record(&header, rec))
+                }
+            }
+            if kind == Kind::VcfGz {
+                go(&mut t, vcf::r#async::io::Reader::new(bgzf_reader(src, workers)), eager).await
+            } else {
+                go(&mut t, vcf::r#async::io::Reader::new(tokio::io::BufReader::with_capacity(BUF_CAP, src)), eager).await
+            }
+        }
+        Kind::Gff => {
+            let mut r = gff::r#async::io::Reader::new(tokio::io::BufReader::with_capacity(BUF_CAP, src));
+            let mut st = r.lines();
+            loop {
+                match st.try_next().await {
+                    Ok(Some(line)) => render::gff_line(&line, false, &mut t.out),
+                    Ok(None) => break Ok(()),
+                    Err(e) => break Err(e),
+                }
+            }
+        }
+        _ => {
+            t.push("no stream API".into());
+            Ok(())
+        }
+    };
+    match res {
+        Ok(()) => t.end(),
+        Err(e) => t.err(&e),
+    }
+}
